@@ -229,7 +229,11 @@ func ruleBlock(c *Ctx) {
 	})
 	c.MinCount("decBlock decoder goroutines", nChecked, 2)
 	// unsigned guard before br.Next(int(size))
-	checkUnsignedGuards(c, p, fd, "decBlock")
+	checkUnsignedGuards(c, p, fd, "decBlock", 1)
+	// the same for any length Deserialize itself cuts off the input (none on the reference tree)
+	if dfd := p.Func("Serializer.Deserialize"); dfd != nil {
+		checkUnsignedGuards(c, p, dfd, "Deserialize", 0)
+	}
 }
 
 // resolveLocalIn returns the source text of the (single) `name := expr` definition inside body.
@@ -248,7 +252,7 @@ func resolveLocalIn(p *GoProg, body *ast.BlockStmt, name string) string {
 
 // checkUnsignedGuards: every conversion int(E) of a uint64 read from the input that feeds a slice/Next/make length must be
 // dominated by a comparison on the *unsigned* value that bounds it by a length.
-func checkUnsignedGuards(c *Ctx, p *GoProg, fd *ast.FuncDecl, label string) {
+func checkUnsignedGuards(c *Ctx, p *GoProg, fd *ast.FuncDecl, label string, min int) {
 	fg := p.FGOf(fd)
 	n := 0
 	ast.Inspect(fd.Body, func(nd ast.Node) bool {
@@ -256,12 +260,17 @@ func checkUnsignedGuards(c *Ctx, p *GoProg, fd *ast.FuncDecl, label string) {
 		if !ok || !strings.HasSuffix(p.CalleeName(call), "bytes.Buffer).Next") || len(call.Args) != 1 {
 			return true
 		}
+		if _, isConst := p.ConstInt(call.Args[0]); isConst {
+			return true
+		}
 		conv, ok := ast.Unparen(call.Args[0]).(*ast.CallExpr)
-		if !ok || p.CalleeName(conv) != "type:int" {
+		if !ok || p.CalleeName(conv) != "type:int" || len(conv.Args) != 1 {
+			c.Undecided(label+":next-guard:"+p.Str(call), p.Pos(call), "the length handed to Next is not of the form int(<unsigned variable>): its bound cannot be established")
 			return true
 		}
 		id, ok := ast.Unparen(conv.Args[0]).(*ast.Ident)
 		if !ok {
+			c.Undecided(label+":next-guard:"+p.Str(call), p.Pos(call), "the length handed to Next is not of the form int(<unsigned variable>): its bound cannot be established")
 			return true
 		}
 		n++
@@ -312,7 +321,9 @@ func checkUnsignedGuards(c *Ctx, p *GoProg, fd *ast.FuncDecl, label string) {
 		c.Check(guarded, label+":next-guard:"+p.Str(call), p.Pos(call), "bounded by an unsigned comparison with br.Len()", msg, "a 10-byte block-size varint of 2^63+1")
 		return true
 	})
-	c.MinCount(label+" buffer.Next calls", n, 1)
+	if min > 0 {
+		c.MinCount(label+" buffer.Next calls", n, min)
+	}
 }
 
 // C15.ser — per-call state of the Serializer is cleared before the tape loop starts.
@@ -425,6 +436,72 @@ func ruleSerReset(c *Ctx) {
 	})
 	for _, t := range []string{"dst.Tape", "dst.Strings.B", "dst.Message", "s.tagsBuf", "s.valuesBuf"} {
 		c.Check(targets[t], "Deserialize:resize:"+t, p.Pos(dfd), "resliced to the declared size", t+" is not resliced to the size declared in the blob before it is filled: content of an earlier call leaks into the result", "reuse of the destination / Serializer with a smaller document")
+	}
+	// path-sensitive: on every path to a block decoder call, its destination was last assigned `X[:n]` with n the
+	// size just read from the blob (so a reused buffer never keeps its old length)
+	if loop := mainSwitchLoop(p, dfd); loop != nil {
+		fg := p.FGOf(dfd)
+		pre, ok := fg.EnumSegment(0, 0, map[int]bool{fg.LoopHead(loop): true}, 200000)
+		if !ok || len(pre) == 0 {
+			c.Undecided("Deserialize:resize-paths", p.Pos(dfd), "too many paths")
+			return
+		}
+		badDest := map[string]string{}
+		seenDest := map[string]bool{}
+		for _, pa := range pre {
+			env := p.NewFuncEnv(dfd)
+			sp := p.ExecPath(pa, env)
+			if !sp.Feasible() {
+				continue
+			}
+			for ci, call := range sp.Effects {
+				if call.Kind != "call" || call.Target != "Serializer.decBlock" || len(call.Args) < 2 {
+					continue
+				}
+				// the destination expression as written at the call
+				ce, _ := call.Node.(*ast.CallExpr)
+				if ce == nil {
+					if es, ok := call.Node.(*ast.ExprStmt); ok {
+						ce, _ = es.X.(*ast.CallExpr)
+					}
+				}
+				dest := call.Args[1].String()
+				var last *SymEffect
+				for k := 0; k < ci; k++ {
+					ef := &sp.Effects[k]
+					if ef.Kind == "store" && ef.Index == nil && ef.Val.String() == dest {
+						last = ef
+					}
+				}
+				name := dest
+				if last != nil {
+					name = last.Target
+				}
+				seenDest[name] = true
+				okSz := false
+				if last != nil {
+					v := last.Val.String()
+					if i := strings.LastIndex(v, "[:"); i >= 0 && strings.HasSuffix(v, "]") && strings.Contains(v[i:], "ReadUvarint(") {
+						okSz = true
+					}
+				}
+				if !okSz {
+					if _, dup := badDest[name]; !dup {
+						badDest[name] = "the buffer handed to decBlock is " + trunc(dest, 80) + condsDesc(sp, 6)
+					}
+				}
+				_ = ce
+			}
+		}
+		var names []string
+		for n := range seenDest {
+			names = append(names, n)
+		}
+		for _, n := range sortedStrings(names) {
+			msg, isBad := badDest[n]
+			c.Check(!isBad, "Deserialize:resize-on-path:"+n, p.Pos(dfd), "last assigned X[:declared size] on every path to its decoder", "Deserialize: on some path "+n+" is filled without having been resliced to the size read from the blob: "+msg+" — a reused buffer keeps the length of an earlier document and the block decoder rejects or misplaces the data", "Deserialize into a destination that holds a longer string buffer (after SetString, or after Parse in copy mode)")
+		}
+		c.MinCount("decoder destinations in Deserialize", len(names), 4)
 	}
 }
 
